@@ -85,7 +85,10 @@ class JSONEncoder(json.JSONEncoder):
 
 def _load_docstring(obj_dict: dict) -> Docstring | None:
     if "docstring" in obj_dict:
-        return Docstring(**obj_dict["docstring"])
+        docstring = Docstring(**obj_dict["docstring"])
+        # The serialized value is already cleaned, and `inspect.cleandoc` is not idempotent.
+        docstring.value = obj_dict["docstring"]["value"]
+        return docstring
     return None
 
 
